@@ -86,10 +86,14 @@ def check_probe(drv, obj, Xn, mode):
             fails.append({"kind": "property", "what": "a frame lacking a fitted column was accepted"})
         else:
             j = drv.call({"op": "judge.C05", "state": fitgen.state_wire(obj), "out": out})
+            READY[bool(j.get("ready"))] = READY.get(bool(j.get("ready")), 0) + 1
             if not j["ok"]:
                 fails.append({"kind": "property", "what": "judge.C05: output cells outside the fitted label set (raw value leaked or unexpected missing)",
                               "features": j["bad"], "out": [c for c in out if c[0] in j["bad"]][:2]})
     return fails, err
+
+
+READY = {}     # how often the hypotheses of the frame theorems (Disc.Shape, C05.Ready) hold of the implementation's fitted state
 
 
 def worker(args):
@@ -124,6 +128,8 @@ def worker(args):
                 sigs.add(json.dumps(fitgen.frame_wire(Xn))[:2000] + mode)
                 if sample is None and mode == "mixed":
                     sample = {"meta": r["meta"], "mode": mode, "frame": fitgen.frame_wire(Xn.head(6)), "outcome": err or "ok"}
+        stats["theorem_hypotheses"] = {"ready": READY.get(True, 0), "not_ready": READY.get(False, 0)}
+        READY.clear()
         return fails[:6], len(fails), stats, sample, len(sigs)
     finally:
         drv.close()
